@@ -311,4 +311,137 @@ theorem run_informed (s : Svc) (hp : s.persist = true) (h : Informed s) (ops : L
     exact ih (step s op) (by rw [step_persist]; exact hp)
       (step_informed s hp h op (ha op (by simp))) (fun o ho => ha o (by simp [ho]))
 
+
+/-! ### general start state: the same facts for a run that starts from any state (needed for several crashes) -/
+
+theorem run_disk_level (s : Svc) (hp : s.persist = true) (ops : List Op) (T id : String) :
+    (run s ops).disk.level T id = lastLevelFrom (s.disk.level T id) ops T id := by
+  rw [run_disk s hp, foldl_diskStep_level]
+
+theorem lastLevelFrom_append (l0 : Nat) (a b : List Op) (T id : String) :
+    lastLevelFrom l0 (a ++ b) T id = lastLevelFrom (lastLevelFrom l0 a T id) b T id := by
+  simp [lastLevelFrom, List.foldl_append]
+
+theorem dormantFrom_append (b0 : Bool) (a b : List Op) (T : String) :
+    dormantFrom b0 (a ++ b) T = dormantFrom (dormantFrom b0 a T) b T := by
+  simp [dormantFrom, List.foldl_append]
+
+theorem silentFrom_append (b0 : Bool) (a b : List Op) (T id : String) :
+    silentFrom b0 (a ++ b) T id = silentFrom (silentFrom b0 a T id) b T id := by
+  simp [silentFrom, List.foldl_append]
+
+/-! ### handlers know the level on disk, for every id whose last change was announced (silent-aware) -/
+
+def silentStep (T id : String) (b : Bool) : Op → Bool
+  | .collect T' i _ _ => if T' = T ∧ i = id then false else b
+  | .update T' i _ _ => if T' = T ∧ i = id then true else b
+  | .deleteTopic T' => if T' = T then true else b
+  | _ => b
+
+theorem silentFrom_eq (b0 : Bool) (ops : List Op) (T id : String) :
+    silentFrom b0 ops T id = ops.foldl (silentStep T id) b0 := by
+  unfold silentFrom
+  congr 1
+
+/-- `(T,id)` is either marked silent (`b = true`) or the handlers' last word is the level on disk. -/
+def InformedAt (s : Svc) (b : Bool) (T id : String) : Prop :=
+  b = false → lastTold s.told T id = s.disk.level T id
+
+theorem step_informedAt (s : Svc) (hp : s.persist = true) (b : Bool) (T id : String)
+    (h : InformedAt s b T id) (op : Op) : InformedAt (step s op) (silentStep T id b op) T id := by
+  intro hb
+  rw [step_told, step_disk s hp, diskStep_level, lastTold_append]
+  rcases op with ⟨T', i, l, t⟩ | ⟨T', i, l, t⟩ | T' | T' | T'
+  · by_cases hk : T' = T ∧ i = id
+    · simp [toldStep, levelStep, hk]
+    · simp [silentStep, hk] at hb
+      simp [toldStep, levelStep, hk, h hb]
+  · by_cases hk : T' = T ∧ i = id
+    · simp [silentStep, hk] at hb
+    · simp [silentStep, hk] at hb
+      simp [toldStep, levelStep, hk, h hb]
+  · simp [silentStep] at hb; simp [toldStep, levelStep, h hb]
+  · simp [silentStep] at hb; simp [toldStep, levelStep, h hb]
+  · by_cases hk : T' = T
+    · simp [silentStep, hk] at hb
+    · simp [silentStep, hk] at hb
+      simp [toldStep, levelStep, hk, h hb]
+
+theorem run_informedAt (s : Svc) (hp : s.persist = true) (b : Bool) (T id : String)
+    (h : InformedAt s b T id) (ops : List Op) : InformedAt (run s ops) (silentFrom b ops T id) T id := by
+  rw [silentFrom_eq]
+  induction ops generalizing s b with
+  | nil => exact h
+  | cons op rest ih =>
+    simp only [run, List.foldl_cons] at *
+    exact ih (step s op) (by rw [step_persist]; exact hp) _ (step_informedAt s hp b T id h op)
+
+/-- At a crash point outside the notify→transaction window the handlers' knowledge survives as it was for the
+recorded history. -/
+theorem crashAt_informedAt (s : Svc) (hp : s.persist = true) (b : Bool) (T id : String)
+    (h : InformedAt s b T id) (ops : List Op) (k j : Nat) (hw : inWindow ops k j = false) :
+    InformedAt (crashAt s ops k j).restart (silentFrom b (recorded ops k (crashDone ops k j)) T id) T id := by
+  show _ → lastTold (crashAt s ops k j).told T id = (crashAt s ops k j).disk.level T id
+  by_cases hd : (microsAt ops k).length ≤ j
+  · simp only [crashDone, hd, decide_true]
+    rw [crashAt_done s ops k j hd]
+    exact run_informedAt s hp b T id h _
+  · obtain ⟨op, hop, hdk, ht, _⟩ := crashAt_partial s ops k j (by omega)
+    simp only [crashDone, hd, decide_false, recorded_false]
+    rw [hdk, ht]
+    have htold : toldAt op j = [] := by
+      unfold inWindow at hw
+      rw [hop] at hw
+      unfold microsAt at hd
+      rw [hop] at hd
+      cases op with
+      | collect T'' i' l t =>
+        simp [Op.micros, collectMicros] at hd
+        simp at hw
+        simp [toldAt]; omega
+      | _ => rfl
+    rw [htold, List.append_nil]
+    exact run_informedAt s hp b T id h _
+
+
+/-! ### any number of crashes -/
+
+/-- none of the crash points lies in a notify→transaction window -/
+def noWindow (ops : List Op) : List (Nat × Nat) → Bool
+  | [] => true
+  | (k, j) :: cs => !inWindow ops k j && noWindow (ops.drop (k + 1)) cs
+
+theorem multiCrash_spec (s : Svc) (hp : s.persist = true) (hc : Coherent s) (ops : List Op) (cs : List (Nat × Nat)) :
+    (multiCrash s ops cs).persist = true ∧ Coherent (multiCrash s ops cs) ∧
+    (∀ T id, (multiCrash s ops cs).disk.level T id =
+        lastLevelFrom (s.disk.level T id) (multiSurvived crashDone ops cs) T id) ∧
+    (∀ T, (multiCrash s ops cs).closed T = true → dormantFrom (s.closed T) (multiSurvived crashDone ops cs) T = true) ∧
+    (∀ b T id, noWindow ops cs = true → InformedAt s b T id →
+        InformedAt (multiCrash s ops cs) (silentFrom b (multiSurvived crashDone ops cs) T id) T id) := by
+  induction cs generalizing s ops with
+  | nil =>
+    refine ⟨by simp [multiCrash, run_persist, hp], run_coherent s hp hc ops, fun T id => run_disk_level s hp ops T id,
+      fun T h => by simpa [multiCrash, multiSurvived, run_closed] using h,
+      fun b T id _ h => run_informedAt s hp b T id h ops⟩
+  | cons c cs ih =>
+    obtain ⟨k, j⟩ := c
+    have hp' : (crashAt s ops k j).restart.persist = true := by
+      show (crashAt s ops k j).persist = true
+      rw [crashAt_persist, hp]
+    obtain ⟨h1, h2, h3, h4, h5⟩ := ih (crashAt s ops k j).restart hp' (coherent_restart _) (ops.drop (k + 1))
+    refine ⟨h1, h2, fun T id => ?_, fun T h => ?_, fun b T id hw h => ?_⟩
+    · show (multiCrash (crashAt s ops k j).restart (ops.drop (k + 1)) cs).disk.level T id = _
+      rw [h3 T id]
+      show lastLevelFrom ((crashAt s ops k j).disk.level T id) _ T id = _
+      rw [crashAt_disk, run_disk_level s hp]
+      simp only [multiSurvived]
+      rw [lastLevelFrom_append]
+    · simp only [multiSurvived]
+      rw [dormantFrom_append]
+      exact dormantFrom_mono T _ _ _ (by intro hh; cases hh) (h4 T h)
+    · simp only [noWindow, Bool.and_eq_true, Bool.not_eq_true'] at hw
+      simp only [multiSurvived]
+      rw [silentFrom_append]
+      exact h5 _ T id hw.2 (crashAt_informedAt s hp b T id h ops k j hw.1)
+
 end Kap.C08
